@@ -21,7 +21,7 @@ import struct
 from harness import core
 
 NAN, PINF, NINF = -99, -97, -96
-JVM_ENV = {"_JAVA_OPTIONS": "-Xmx2g"}
+JVM_ENV = {"_JAVA_OPTIONS": "-Xmx2g -XX:ParallelGCThreads=2"}
 BS_INV = ["TypeOK", "ResultIsFirstGE", "NonFiniteIsNaN", "AboveLastIsNaN", "FiniteInRangeGetsBin",
           "WindowHoldsAnswer", "LeftBelow", "RightAtLeast", "MidIsMiddle", "NoWrapAround", "NeverExhausted",
           "StepMakesProgress"]
@@ -292,12 +292,13 @@ def run(ctx):
     nmax, vmax = (7, 6) if thorough else (6, 4)
     jms = multiset_jobs(rng, nmax, vmax)
     jrnd = random_jobs(rng, ctx.pick(1200, 12000))
-    allc = core.run_jobs("classify_worker", jb + jbin + jms + jrnd, nproc=16)
+    # each worker process pays ~5 CPU-s import + JIT: few processes in the quick tier
+    allc = core.run_jobs("classify_worker", jb + jbin + jms + jrnd, nproc=ctx.pick(4, 16))
     compiled = allc[:len(jb)]
     cbin = allc[len(jb):len(jb) + len(jbin)]
     cms = allc[len(jb) + len(jbin):len(jb) + len(jbin) + len(jms)]
     crnd = allc[len(jb) + len(jbin) + len(jms):]
-    interp = core.run_jobs("classify_worker", jb, nproc=8, env={"NUMBA_DISABLE_JIT": "1"})
+    interp = core.run_jobs("classify_worker", jb, nproc=ctx.pick(3, 8), env={"NUMBA_DISABLE_JIT": "1"})
 
     # ------------------------------------------------------------------ R: the complete bin / value space
     mism = 0
@@ -318,7 +319,7 @@ def run(ctx):
         ctx.report_drift("interpreted != compiled _cpu_bin on %d bin lists (step evidence discarded)" % mism)
     ctx.note("R: %d bin lists x %d value positions through _cpu_bin (compiled + interpreted trace) and reclassify"
              % (len(jb), len(jb[0]["vals2"])))
-    judge(ctx, compiled, "replay_bins", tally, parallel=4)
+    judge(ctx, compiled, "replay_bins", tally, parallel=2)
     c = compiled[len(compiled) // 2]
     ctx.sample({"kind": "bin", "bins": c["bins"], "vals2": c["vals2"], "idx": c.get("idx"), "trace": c.get("trace")})
 
@@ -326,7 +327,7 @@ def run(ctx):
     ctx.sample({"kind": "binary", "vals": cbin[0]["job"]["vals"], "list": cbin[0]["job"]["list"], "out": cbin[0].get("out")})
 
     ctx.note("R: %d calls: every multiset of 2..%d values over 0..%d x k=2..4 x 3 classifiers" % (len(jms), nmax, vmax))
-    judge(ctx, cms, "replay_multisets", tally, parallel=6)
+    judge(ctx, cms, "replay_multisets", tally, parallel=ctx.pick(3, 6))
     for c in cms:
         if "error" not in c and len(set(c["vals"])) >= 3:
             ctx.nontrivial((c["func"], c["k"], tuple(sorted(c["vals"]))))
@@ -334,8 +335,8 @@ def run(ctx):
     ctx.sample({"kind": "multiset", "func": c.get("func"), "k": c.get("k"), "vals": c.get("vals"), "out": c.get("out")})
 
     # ------------------------------------------------------------------ T: seeded rasters
-    judge(ctx, [c for c in crnd if c["kind"] == "classes"], "random_classes", tally, parallel=ctx.pick(4, 8))
-    judge(ctx, [c for c in crnd if c["kind"] == "binary"], "random_binary", tally, parallel=2)
+    judge(ctx, [c for c in crnd if c["kind"] == "classes"], "random_classes", tally, parallel=ctx.pick(2, 8))
+    judge(ctx, [c for c in crnd if c["kind"] == "binary"], "random_binary", tally, parallel=1)
     for c in crnd:
         if "error" not in c and c["kind"] == "classes":
             ctx.nontrivial((c["func"], c["k"], tuple(c["vals"]), c["job"]["dtype"], c["job"]["off"], c["job"]["unit"]))
